@@ -55,6 +55,19 @@ func buildRegistry(entries []regEntry) (lint.Registry, []string) {
 			err = lint.VerifRegisterCertificateLint(reg, nil)
 		}
 		outcomes = append(outcomes, regErrClass(err))
+		// reads interleaved with registrations (a registry may be listed / filtered before later init()s run):
+		// any cache they fill must not go stale
+		switch len(outcomes) % 3 {
+		case 0:
+			_ = reg.Names()
+		case 1:
+			_, _ = reg.Filter(lint.FilterOptions{IncludeSources: lint.SourceList{lint.LintSource(e.source)}})
+		case 2:
+			if e.name != "" {
+				_, _ = reg.Filter(lint.FilterOptions{IncludeNames: []string{e.name}})
+			}
+			_ = reg.Sources()
+		}
 	}
 	return reg, outcomes
 }
